@@ -163,6 +163,13 @@ func rulePadShape(p *Program, r *Result, parts string) {
 			}
 			names = append(names, c.Common().Method.Name())
 		}
+		// a fresh md5.New() per round does what Reset does
+		if len(names) > 0 && names[0] != "Reset" {
+			if hc, ok := h.(*ssa.Call); ok && blockReachFromSelf(hc.Block()) && len(seq) > 0 && domInstr(hc, seq[0]) {
+				names = append([]string{"Reset"}, names...)
+				seq = append([]ssa.CallInstruction{hc}, seq...)
+			}
+		}
 		wantOrder := "Reset Write Write Write Write Write Sum"
 		bOK := strings.Join(names, " ") == wantOrder
 		why := ""
@@ -210,7 +217,11 @@ func rulePadShape(p *Program, r *Result, parts string) {
 		}
 		var sum ssa.Value
 		if bOK {
-			ops := writeOps
+			ops := make([]ssa.Value, len(writeOps))
+			for i, o := range writeOps {
+				// inputs bundled in a local struct (set once) stand for what was stored there
+				ops[i] = canonObject(o)
+			}
 			sum = seq[len(seq)-1].Value()
 			// 1: session id
 			if call, idx, ok := extractOf(ops[0]); !ok || idx != 0 || call.Common().StaticCallee() == nil || call.Common().StaticCallee().Name() != "MarshalBinary" ||
@@ -255,6 +266,8 @@ func rulePadShape(p *Program, r *Result, parts string) {
 				for _, e := range ph.Edges {
 					if e == sum {
 						nSum++
+					} else if isNilConst(e) {
+						nEmpty++ // var lastHash []byte
 					} else if n, ok := sliceConstLen(e); ok && n == 0 {
 						nEmpty++
 					} else if sl, ok := e.(*ssa.Slice); ok {
@@ -362,6 +375,14 @@ func rulePadShape(p *Program, r *Result, parts string) {
 				}
 				cOK = good && trunc && loopOK
 				whyC = fmt.Sprintf("digest appended to the pad: %v, truncation pad[:int(Header.Length)]: %v, loop 'for len(pad) < int(Header.Length)': %v", good, trunc, loopOK)
+			}
+		}
+		if !cOK && sum != nil {
+			// third way of truncating: the digest is appended whole unless more than what is missing, in which
+			// case only the missing part is: if rest := H - len(pad); rest < len(sum) { append(pad, sum[:rest]...) }
+			// else { append(pad, sum...) }
+			if ph, ok := twoAppendTruncation(sum, pkt); ok {
+				padPhi, cOK = ph, true
 			}
 		}
 		want("c").cond(cOK, "R-PADSHAPE", key+":c:pad-truncated-to-length", pos,
@@ -827,4 +848,126 @@ func isMinOfMissingAndLen(hv ssa.Value, pad *ssa.Phi, sum ssa.Value, pkt ssa.Val
 		return tb.Succs[0] == ob && len(ob.Preds) == 1
 	}
 	return false
+}
+
+// twoAppendTruncation recognises
+//
+//	for len(pad) < H { ...; if rest := H - len(pad); rest < len(sum) { pad = append(pad, sum[:rest]...) } else { pad = append(pad, sum...) } }
+//
+// and returns the pad's loop phi.
+func twoAppendTruncation(sum ssa.Value, pkt ssa.Value) (*ssa.Phi, bool) {
+	var full, cut *ssa.Call
+	var cutSlice *ssa.Slice
+	isAppend := func(c *ssa.Call) bool {
+		bi, ok := c.Common().Value.(*ssa.Builtin)
+		return ok && bi.Name() == "append" && len(c.Common().Args) == 2
+	}
+	for _, rf := range refsOf(sum) {
+		switch x := rf.(type) {
+		case *ssa.Call:
+			if isAppend(x) && x.Common().Args[1] == sum {
+				if full != nil {
+					return nil, false
+				}
+				full = x
+			}
+		case *ssa.Slice:
+			for _, r2 := range refsOf(x) {
+				if c, ok := r2.(*ssa.Call); ok && isAppend(c) && c.Common().Args[1] == ssa.Value(x) {
+					if cut != nil {
+						return nil, false
+					}
+					cut, cutSlice = c, x
+				}
+			}
+		}
+	}
+	if full == nil || cut == nil || cutSlice.Low != nil || cutSlice.High == nil {
+		return nil, false
+	}
+	ph, ok := full.Common().Args[0].(*ssa.Phi)
+	if !ok || cut.Common().Args[0] != ssa.Value(ph) {
+		return nil, false
+	}
+	// rest = H - len(pad)
+	rest, ok := cutSlice.High.(*ssa.BinOp)
+	if !ok || rest.Op != token.SUB || !isHeaderLen(rest.X, pkt) {
+		return nil, false
+	}
+	lenOf := func(v ssa.Value, of ssa.Value) bool {
+		c, ok := v.(*ssa.Call)
+		if !ok {
+			return false
+		}
+		bi, ok := c.Common().Value.(*ssa.Builtin)
+		return ok && bi.Name() == "len" && c.Common().Args[0] == of
+	}
+	if !lenOf(rest.Y, ph) {
+		return nil, false
+	}
+	// the test rest < len(sum): cut on the true side, full on the false side
+	var test *ssa.BasicBlock
+	cutOnTrue := true
+	for _, b := range full.Parent().Blocks {
+		iff, ok := b.Instrs[len(b.Instrs)-1].(*ssa.If)
+		if !ok {
+			continue
+		}
+		bo, ok := iff.Cond.(*ssa.BinOp)
+		if !ok {
+			continue
+		}
+		switch {
+		case bo.Op == token.LSS && bo.X == ssa.Value(rest) && lenOf(bo.Y, sum):
+			test, cutOnTrue = b, true
+		case bo.Op == token.GTR && bo.Y == ssa.Value(rest) && lenOf(bo.X, sum):
+			test, cutOnTrue = b, true
+		case bo.Op == token.GEQ && bo.X == ssa.Value(rest) && lenOf(bo.Y, sum):
+			test, cutOnTrue = b, false
+		case bo.Op == token.LEQ && bo.Y == ssa.Value(rest) && lenOf(bo.X, sum):
+			test, cutOnTrue = b, false
+		}
+	}
+	if test == nil {
+		return nil, false
+	}
+	cs, fs := test.Succs[0], test.Succs[1]
+	if !cutOnTrue {
+		cs, fs = fs, cs
+	}
+	if cs != cut.Block() || fs != full.Block() || len(cs.Preds) != 1 || len(fs.Preds) != 1 {
+		return nil, false
+	}
+	// the pad's loop value: initial empty, or one of the two appends
+	for _, e := range ph.Edges {
+		switch {
+		case e == ssa.Value(full), e == ssa.Value(cut):
+		default:
+			if sl, ok := e.(*ssa.Slice); ok {
+				if hi, ok := constInt(sl.High); ok && hi == 0 {
+					continue
+				}
+			}
+			if n, ok := sliceConstLen(e); ok && n == 0 {
+				continue
+			}
+			if _, isParam := e.(*ssa.Parameter); isParam {
+				continue // a buffer handed in by the caller: checked at the call site by the bounds rule
+			}
+			return nil, false
+		}
+	}
+	// loop head: len(pad) < H leads to the test
+	iff, ok := ph.Block().Instrs[len(ph.Block().Instrs)-1].(*ssa.If)
+	if !ok {
+		return nil, false
+	}
+	bo, ok := iff.Cond.(*ssa.BinOp)
+	if !ok || bo.Op != token.LSS || !isHeaderLen(bo.Y, pkt) || !lenOf(bo.X, ph) {
+		return nil, false
+	}
+	if !(ph.Block().Succs[0] == test || ph.Block().Succs[0].Dominates(test)) {
+		return nil, false
+	}
+	return ph, true
 }
